@@ -30,6 +30,9 @@ pub struct Case {
     pub positions: Option<Vec<String>>,
     #[serde(default)]
     pub position_ids: Vec<String>,
+    /// stand-alone programs only: an imported module (its text; the main file starts with `use zpm`) - "across files"
+    #[serde(default)]
+    pub module: Option<String>,
 }
 
 pub fn toplevel_cfg(thorough: bool) -> GenCfg {
@@ -104,13 +107,25 @@ fn evaluate_positions(case: &Case, items: &[String], labels: &mut Labels) -> Ver
     for id in &case.position_ids {
         labels.add(format!("position:{}", id));
     }
-    let text = |order: &[usize]| -> String { order.iter().filter_map(|i| items.get(*i)).cloned().collect::<Vec<_>>().join("\n") + "\n" };
+    let header = if case.module.is_some() { "use zpm\n" } else { "" };
+    let text = |order: &[usize]| -> String { format!("{}{}\n", header, order.iter().filter_map(|i| items.get(*i)).cloned().collect::<Vec<_>>().join("\n")) };
+    let project = |src: &str| -> Project {
+        match &case.module {
+            None => Project::single(src.to_string()),
+            Some(m) => {
+                let mut p = Project::single(src.to_string());
+                let dir = p.main.rsplit_once('/').map(|x| x.0.to_string()).unwrap_or_default();
+                p.files.insert(format!("{}/zpm.sy", dir), m.clone());
+                p
+            }
+        }
+    };
     let mut first: Option<(usize, vcore::luarun::Trace)> = None;
     let mut accepted = 0;
     let mut rejected: Vec<(usize, String)> = Vec::new();
     for (k, order) in case.orders.iter().enumerate() {
         let src = text(order);
-        match compile(&Project::single(src.clone())) {
+        match compile(&project(&src)) {
             Outcome::Accepted(lua) => {
                 accepted += 1;
                 match run_lua(&lua, 2_000_000) {
@@ -186,14 +201,29 @@ impl Check for C11 {
     fn generate(&self, u: &mut Unstructured, tier: Tier) -> Option<Case> {
         let mut t = Tape::new(u);
         if t.chance(1, 5) {
-            let (items, ids) = crate::c11_pos::build(&mut t);
+            let (mut items, mut ids) = crate::c11_pos::build(&mut t);
+            // 1 in 4: an imported module that is a program of its own; a definition of the main file mentions the module's
+            // `start`, the main file's `start` does not depend on that definition
+            let module = if t.chance(1, 4) {
+                ids.push("module-with-own-start".into());
+                let user = match t.below(3) {
+                    0 => "zpreplay :: fn do\n    zpm.start()\nend",
+                    1 => "zpreplay :: zpm.start",
+                    _ => "zpreplay :: fn -> int do\n    zpm.start()\n    zpm.zmvalue\nend",
+                };
+                let at = t.below(items.len());
+                items.insert(at, user.to_string());
+                Some("zmvalue :: 7\nzmshow :: fn do\n    print(zmvalue)\nend\nstart :: fn do\n    zmshow()\n    print(\"module start ran\")\nend\n".to_string())
+            } else {
+                None
+            };
             let n = items.len();
             let mut orders: Vec<Vec<usize>> = vec![(0..n).collect(), (0..n).rev().collect()];
             for _ in 0..tier.pick(6, 10) {
                 orders.push(permutation(&mut t, n));
             }
             let source = items.join("\n") + "\n";
-            return Some(Case { prog: Program::default(), orders, cycle: None, source, positions: Some(items), position_ids: ids });
+            return Some(Case { prog: Program::default(), orders, cycle: None, source, positions: Some(items), position_ids: ids, module });
         }
         let prog = Gen::new(&mut t, toplevel_cfg(tier == Tier::Thorough)).program();
         let cycle: Option<Vec<String>> = if t.chance(1, 6) { Some(t.pick(CYCLES).iter().map(|s| s.to_string()).collect()) } else { None };
@@ -206,7 +236,7 @@ impl Check for C11 {
         for _ in 0..tier.pick(3, 5) {
             orders.push(permutation(&mut t, n));
         }
-        let mut case = Case { prog, orders, cycle, source: String::new(), positions: None, position_ids: Vec::new() };
+        let mut case = Case { prog, orders, cycle, source: String::new(), positions: None, position_ids: Vec::new(), module: None };
         case.source = render_with(&case, &case.orders[0]);
         Some(case)
     }
@@ -376,7 +406,7 @@ impl Check for C11 {
                         })
                         .collect()
                 };
-                let mut c = Case { prog: p.prog, orders, cycle: None, source: String::new(), positions: None, position_ids: Vec::new() };
+                let mut c = Case { prog: p.prog, orders, cycle: None, source: String::new(), positions: None, position_ids: Vec::new(), module: None };
                 c.source = render_with(&c, &c.orders[0]);
                 Step::Candidate(c)
             }
